@@ -439,11 +439,91 @@ fn check_index(r: &mut Replica, u: &Universe, rng: &mut Rng) -> Result<(), Fail>
     Ok(())
 }
 
+/// Ladder family (DESIGN §5 C02): a chain of `rungs` diamonds a_i, b_i -> m_i under init plus a
+/// sibling branch of `side` commands; committing {top of ladder, side tip} braids a region with
+/// one convergence point per rung (ConvergenceMap spills beyond 768) and > 256 braided commands
+/// (BraidResult spill).  Decided on C02's own predicate (every command once, ancestors first, no
+/// merge evaluated) and on C01 (a differently batched twin agrees).
+fn run_ladder(case: &Value, args: &Args, rng: &mut Rng) -> Result<(Value, u64), Fail> {
+    let merge_tag = args.opt_u64("merge_tag", 2) as u8;
+    audit::set_merge_tag(merge_tag);
+    let rungs = case.u("rungs");
+    let side = case.u("side");
+    // abstract cmds: 1 init; per rung i: a=2+3i, b=3+3i, m=4+3i ; then side chain
+    let mut cmds: Vec<Value> = vec![json!({"n":1,"par":[],"kind":"init","prio":0,"id":[3],"op":"n","mc":0})];
+    let mut top = 1u64;
+    let mut uni = Universe { chains: BTreeMap::new(), order: vec![], parents: BTreeMap::new(), kinds: BTreeMap::new(), by_id: BTreeMap::new() };
+    let _ = &mut cmds;
+    let init = ACmd::new(ids::init_id(), Priority::Init, Prior::None, b'n', "1");
+    let mut add = |u: &mut Universe, n: u64, kind: &str, par: Vec<u64>, cmd: ACmd| {
+        u.by_id.insert(*cmd.id.as_array(), (n, 0));
+        u.chains.insert(n, vec![cmd]);
+        u.order.push(n);
+        u.parents.insert(n, par);
+        u.kinds.insert(n, kind.to_string());
+    };
+    add(&mut uni, 1, "init", vec![], init);
+    let mut n = 2u64;
+    for i in 0..rungs {
+        let p = uni.tip(top).address();
+        let a = ACmd::new(ids::basic_id(1, i as u16), Priority::Basic(0), Prior::Single(p), b'n', &format!("a{i}"));
+        let b = ACmd::new(ids::basic_id(2, i as u16), Priority::Basic((i % 2) as u32), Prior::Single(p), b'n', &format!("b{i}"));
+        let (la, lb) = (a.address(), b.address());
+        let mid = ids::merge_id(la.id.as_array(), lb.id.as_array(), merge_tag).ok_or_else(|| fail("tool:id", "merge id".into()))?;
+        let (l, r) = if la.id < lb.id { (la, lb) } else { (lb, la) };
+        let m = ACmd::new(mid, Priority::Merge, Prior::Merge(l, r), b'm', &format!("m{i}"));
+        add(&mut uni, n, "b", vec![top], a);
+        add(&mut uni, n + 1, "b", vec![top], b);
+        add(&mut uni, n + 2, "merge", vec![n, n + 1], m);
+        top = n + 2;
+        n += 3;
+    }
+    let mut prev = 1u64;
+    for j in 0..side {
+        let p = uni.tip(prev).address();
+        let c = ACmd::new(ids::basic_id(9, j as u16), Priority::Basic(1), Prior::Single(p), b'n', &format!("s{j}"));
+        add(&mut uni, n, "b", vec![prev], c);
+        prev = n;
+        n += 1;
+    }
+    let order: Vec<ACmd> = uni.all().cloned().collect();
+    let mut views = vec![];
+    for twin in 0..2 {
+        let mut r = Replica::new(ids::init_id());
+        let mut sink = ASink::new();
+        audit::take_log();
+        let t = if twin == 0 {
+            deliver_all(&mut r, &order, None, &mut sink, false)
+        } else {
+            let ord = alt_order(&uni, rng);
+            deliver_all(&mut r, &ord, Some(rng), &mut sink, false)
+        }
+        .map_err(|e| fail("C02:ladder-deliver", format!("ladder delivery failed: {}", err_class(&e))))?;
+        r.commit(t, &mut sink).map_err(|e| fail("C02:ladder-commit", format!("ladder commit failed: {}", err_class(&e))))?;
+        if audit::take_log().iter().any(|c| c.merge) {
+            return Err(fail("C02:merge-evaluated", "a merge command reached call_rule".into()));
+        }
+        let v = r.view().map_err(|e| fail("tool:view", e))?;
+        if v.reachable.len() != order.len() {
+            return Err(fail("C08:commit-set", format!("ladder: {} of {} commands committed", v.reachable.len(), order.len())));
+        }
+        if let Some(m) = check_once(&uni, &v.seq, &v.reachable) {
+            return Err(fail("C02:once", format!("ladder of {rungs} rungs: {m}")));
+        }
+        views.push(v);
+    }
+    if views[0] != views[1] {
+        return Err(fail("C01:diverge", format!("two histories of a {rungs}-rung ladder disagree")));
+    }
+    Ok((json!({"rungs": rungs, "side": side, "commands": order.len(), "seq_len": views[0].seq.len()}), 0))
+}
+
 pub fn run(args: &Args) {
     let mut out = args.out();
     for (i, case) in args.read_input().iter().enumerate() {
         let mut rng = Rng::new(args.seed ^ (i as u64).wrapping_mul(0x9E37_79B9));
-        match vrt::catch_any(|| run_case(case, args, &mut rng)) {
+        let is_ladder = case.get("rungs").is_some();
+        match vrt::catch_any(|| if is_ladder { run_ladder(case, args, &mut rng) } else { run_case(case, args, &mut rng) }) {
             Ok(Ok((obs, drift))) => out.emit(json!({"i": i, "ok": true, "step": -1, "obs": obs, "drift": drift})),
             Ok(Err(f)) => {
                 if f.key.starts_with("tool:") {
